@@ -192,7 +192,7 @@ pub fn run(ctx: &Ctx) -> i32 {
     }
     let tier = ctx.tier;
     let n_trials = tier.pick(200, 5_000);
-    let n_sim = tier.pick(1_500, 40_000);
+    let n_sim = tier.pick(6_000, 150_000);
     let cfg = RunCfg {
         property: "C08",
         tier,
